@@ -6,7 +6,7 @@ from checkcfg import PROPS, MANIFEST_TEXT
 
 ids = [json.loads(l)['id'] for l in open('/verif/properties.jsonl')]
 hooks = subprocess.run(['git', '-C', '/repo', 'log', '--format=%H %s', '--reverse'], capture_output=True, text=True).stdout.splitlines()
-hook_commits = [l.split()[0] for l in hooks if ' verif hooks:' in l]
+hook_commits = [l.split()[0] for l in hooks if ' verif hook' in l]
 checks = []
 for i in ids:
     if i not in PROPS:
